@@ -204,7 +204,8 @@ def validate_all(files, prop, tag, rep, workers):
 
 def record_and_validate(prop, tier, seed, config, rep, workers):
     """build, run the driver, validate; -> dict of counts"""
-    exe = vlib.build("codec_driver", ["codec_driver.cpp"], config=config)
+    exe = vlib.build("codec_driver", ["codec_driver.cpp"], config=config,
+                     extra_repo_srcs=["test_heap.cpp"] if config == "dbg" else ())
     d = trace_dir(prop, config)
     args = ["--seed", str(seed), "--out", d, "--tier", tier]
     if os.environ.get("VERIF_CODEC_IZP") == "1":
@@ -317,6 +318,8 @@ def run(prop, tier, seed):
                                      "texts (all byte values) incl. lengths around 256 and up to 4300, extensions "
                                      "and padded twins",
             "tuple-rand": "random schemas of 2..5 components of all types, correlated components, fresh/reset/grown encoders",
+            "grow-fault": "assertion build only: an encoder whose growth across the internal buffer failed once (allocation "
+                          "failure injected), reused after reset() for keys of 258..520 bytes; ref = fresh encoders",
             "grow": "keys of 240..390 components crossing the 256-byte internal buffer (and 512, 1024, ...) at every "
                     "alignment; fresh, reset and previously grown encoders; ref = components encoded alone by fresh encoders",
         },
